@@ -1,11 +1,13 @@
 (* The acceptance condition of asIRI (decoding_json.go, as repaired) as the decoder model has it since the URL grammar
    was widened: a JSON string is read as an IRI exactly when its text (no quote, backslash or byte < 0x20: those are
-   outside the model) reads  scheme "://" rawhost rawpath ["?" query] ["#" fragment]  with
+   outside the model) reads  scheme "://" authority rawpath ["?" query] ["#" fragment]  with
      - scheme  ALPHA *( ALPHA / DIGIT / "+" / "-" / "." ),
      - no control byte before the "#",
-     - rawhost without "/", "?", "#", accepted by url.parseHost as it is (rawhost_ok: no userinfo, no IP literal -
-       those are outside the model -, an optional ":" digits port, bytes >= 0x80, "%XX" of bytes >= 0x80, "%25", and
-       the ASCII bytes url.shouldEscape leaves alone in host mode), decoding to a NON-EMPTY host,
+     - authority without "/", "?", "#", accepted by url.parseAuthority (UrlU.parse_authority: an optional userinfo up to
+       the LAST "@" made of the bytes url.validUserinfo allows, with well-formed escapes; then the host: bytes >= 0x80,
+       "%XX" of bytes >= 0x80, "%25", the ASCII bytes url.shouldEscape leaves alone in host mode, an optional ":" digits
+       port - or an IP literal "[" ... "]" [":" digits] with an RFC 6874 zone), decoding to a NON-EMPTY host
+       (UrlUP.parse_authority_struct spells out what an accepted authority looks like),
      - rawpath empty or beginning with "/", without "?" and "#", every "%" followed by two hex digits,
      - a fragment whose "%" are followed by two hex digits.
    The model extends the test of the plain grammar (Model/Url.v): as_iri_of_plain.
@@ -14,35 +16,34 @@
 From AP.Model Require Import Prelude Bytes Url IriEq IriNf Vocab Pred CollIri IriNfX Utf8 FoldTab Fold UrlU IriEqU Text JsonDec.
 From AP.Proofs Require Import NlvP LowerP IriEqP SortP IriGenP IriNfP IriXP CollIriP Utf8P FoldP DecodeUP CleanUP UrlUP QueryUP IriGenUP IriUP CollIriUP ConservUP.
 
-Record iri_reading (s sch rh rp : bytes) (qo fo : option bytes) : Prop := {
-  ir_string : s = (sch ++ B "://" ++ rh ++ rp ++ tail_of qmark qo) ++ tail_of hash fo;
-  ir_nohash : notin hash (sch ++ B "://" ++ rh ++ rp ++ tail_of qmark qo) = true;
+Record iri_reading (s sch au rp : bytes) (qo fo : option bytes) : Prop := {
+  ir_string : s = (sch ++ B "://" ++ au ++ rp ++ tail_of qmark qo) ++ tail_of hash fo;
+  ir_nohash : notin hash (sch ++ B "://" ++ au ++ rp ++ tail_of qmark qo) = true;
   ir_scheme : forallb is_scheme_char sch = true;
   ir_alpha : match sch with c0 :: _ => is_alpha c0 = true | [] => False end;
-  ir_noctl : existsb is_ctl (sch ++ B "://" ++ rh ++ rp ++ tail_of qmark qo) = false;
-  ir_host_noslash : notin slash rh = true;
-  ir_noq : notin qmark (rh ++ rp) = true;
-  ir_host : rawhost_ok rh = true;
-  ir_host_dec : exists h, pct_decode rh = Some h /\ h <> [];
+  ir_noctl : existsb is_ctl (sch ++ B "://" ++ au ++ rp ++ tail_of qmark qo) = false;
+  ir_auth_noslash : notin slash au = true;
+  ir_noq : notin qmark (au ++ rp) = true;
+  ir_auth : exists user h, parse_authority au = Some (user, h) /\ h <> [];
   ir_path_root : rp = [] \/ exists p, rp = slash :: p;
   ir_path_dec : exists d, pct_decode rp = Some d;
   ir_frag_dec : frag_fields fo <> None
 }.
 
-Theorem as_iri_accepts raw sch rh rp qo fo :
-  fj_has_special (fj_unescape raw) = false -> iri_reading (fj_unescape raw) sch rh rp qo fo ->
+Theorem as_iri_accepts raw sch au rp qo fo :
+  fj_has_special (fj_unescape raw) = false -> iri_reading (fj_unescape raw) sch au rp qo fo ->
   as_iri (FStr raw) = Some (Some (fj_unescape raw)).
 Proof.
-  intros Hsp R. unfold as_iri. rewrite Hsp. unfold url_classify_u.
-  destruct (ir_host_dec _ _ _ _ _ _ R) as [h [Dh Hne]]. destruct (ir_path_dec _ _ _ _ _ _ R) as [d Dp].
-  pose proof (parse_u_struct sch rh rp qo fo h d (ir_scheme _ _ _ _ _ _ R) (ir_alpha _ _ _ _ _ _ R) (ir_noctl _ _ _ _ _ _ R)
-                (ir_nohash _ _ _ _ _ _ R) (ir_host_noslash _ _ _ _ _ _ R) (ir_noq _ _ _ _ _ _ R) (ir_host _ _ _ _ _ _ R) Dh
+  intros Hsp R. unfold as_iri. rewrite Hsp.
+  destruct (ir_auth _ _ _ _ _ _ R) as [user [h [PA Hne]]]. destruct (ir_path_dec _ _ _ _ _ _ R) as [d Dp].
+  pose proof (parse_u_auth sch au rp qo fo user h d (ir_scheme _ _ _ _ _ _ R) (ir_alpha _ _ _ _ _ _ R) (ir_noctl _ _ _ _ _ _ R)
+                (ir_nohash _ _ _ _ _ _ R) (ir_auth_noslash _ _ _ _ _ _ R) (ir_noq _ _ _ _ _ _ R) PA
                 (ir_path_root _ _ _ _ _ _ R) Dp) as PU.
   rewrite <- (ir_string _ _ _ _ _ _ R) in PU.
   pose proof (ir_alpha _ _ _ _ _ _ R) as A.
   assert (fj_unescape raw <> []) as NE.
   { rewrite (ir_string _ _ _ _ _ _ R). destruct sch; [destruct A|discriminate]. }
-  destruct (fj_unescape raw) as [|c0 t] eqn:E; [congruence|]. rewrite PU.
+  rewrite (classify_u_unfold _ NE), PU.
   pose proof (ir_frag_dec _ _ _ _ _ _ R) as F. destruct (frag_fields fo) as [[fd rf]|]; [|congruence].
   cbn [uu_scheme uu_host]. rewrite lower_nonempty. destruct sch; [destruct A|]. destruct h; [congruence|]. reflexivity.
 Qed.
@@ -50,21 +51,15 @@ Qed.
 Theorem as_iri_accepted raw s :
   as_iri (FStr raw) = Some (Some s) ->
   s = fj_unescape raw /\ fj_has_special s = false /\
-  exists u sch rh rp qo fo, url_classify_u s = UValid u /\ ustruct s sch rh rp qo fo /\
-    u_scheme u = lower sch /\ pct_decode rh = Some (u_host u) /\ u_host u <> [] /\ pct_decode rp = Some (u_path u) /\
-    u_query u = opt_or_nil qo.
+  exists u sch up rh rp qo fo, url_classify_u s = UValid u /\ ustruct s sch up rh rp qo fo /\
+    u_scheme u = lower sch /\ pct_decode rh = Some (u_host u) /\ parse_host rh = Some (u_host u) /\ u_host u <> [] /\
+    pct_decode rp = Some (u_path u) /\ u_query u = opt_or_nil qo.
 Proof.
   unfold as_iri. destruct (fj_has_special (fj_unescape raw)) eqn:Hsp; [discriminate|].
   destruct (url_classify_u (fj_unescape raw)) as [u| |] eqn:C; try discriminate.
   intros H. inversion H; subst s. split; [reflexivity|]. split; [exact Hsp|].
-  destruct (classify_u_struct _ u C) as [sch [rh [rp [qo [fo [S [E1 [E2 [E3 E4]]]]]]]]].
-  exists u, sch, rh, rp, qo, fo. split; [exact C|]. split; [exact S|]. split; [exact E1|]. split; [exact E2|].
-  split; [|split; [exact E3|exact E4]].
-  (* the host is not empty: validURL *)
-  unfold url_classify_u in C. destruct (fj_unescape raw); [discriminate|].
-  destruct (url_parse_u (b :: b0)) as [uu| |]; try discriminate.
-  destruct (nonempty (uu_scheme uu)); [|discriminate]. destruct (nonempty (uu_host uu)) eqn:N; [|discriminate].
-  cbn [andb] in C. inversion C; subst u. cbn [u_host]. destruct (uu_host uu); [discriminate N|discriminate].
+  destruct (classify_u_full _ u C) as [sch [up [rh [rp [qo [fo [S [E1 [E2 [E3 [E4 [_ [PH [_ [_ Hne]]]]]]]]]]]]]]].
+  exists u, sch, up, rh, rp, qo, fo. auto 10.
 Qed.
 
 (* ---- the model extends the test of the plain grammar (what the decoder model used before) ---- *)
@@ -128,6 +123,8 @@ Example as_iri_wide_examples :
   as_iri (FStr (B "https://example.com/a b")) = Some (Some (B "https://example.com/a b")) /\
   as_iri (FStr (B "https://example.com/%zz")) = Some None /\
   as_iri (FStr (B "https://example.com/p?q#%zz")) = Some None /\
-  as_iri (FStr (B "https://u@example.com/")) = None /\
-  as_iri (FStr (B "https://[::1]/")) = None.
+  as_iri (FStr (B "https://u@example.com/")) = Some (Some (B "https://u@example.com/")) /\
+  as_iri (FStr (B "https://[::1]/")) = Some (Some (B "https://[::1]/")) /\
+  as_iri (FStr (B "https://u:p@[fe80::1%25eth0]:8443/x")) = Some (Some (B "https://u:p@[fe80::1%25eth0]:8443/x")) /\
+  as_iri (FStr (B "https://u@/x")) = Some None /\ as_iri (FStr (B "https://[::1/x")) = Some None.
 Proof. repeat split; vm_compute; reflexivity. Qed.
